@@ -107,6 +107,8 @@ pub struct World {
     pub users: Vec<UserInfo>,
     pub positions: Vec<PosInfo>,
     pub executed: u64,
+    /// leading bytes for the next generated key (consumed by it)
+    pub key_prefix: Option<Vec<u8>>,
 }
 
 pub fn floor_div(a: i32, b: i32) -> i32 {
@@ -132,12 +134,16 @@ impl World {
             users: vec![],
             positions: vec![],
             executed: 0,
+            key_prefix: None,
         }
     }
 
     pub fn new_key(&mut self) -> Pubkey {
         let mut k = [0u8; 32];
         self.r.fill(&mut k);
+        if let Some(p) = self.key_prefix.take() {
+            k[..p.len()].copy_from_slice(&p);
+        }
         Pubkey::new_from_array(k)
     }
 
